@@ -465,8 +465,17 @@ class Comparison(Display):
                     s.short_name for s in dl2.services
             ]:
                 if rq_prefix in dl2_request_prefixes:
-                    # get related diagnostic service for request
-                    service2_idx = dl2_request_prefixes.index(rq_prefix)
+                    # get related diagnostic service for request. if
+                    # multiple services exhibit the same prefix, prefer
+                    # one which is not present in the first layer anymore
+                    candidate_indices = [
+                        i for i, p in enumerate(dl2_request_prefixes) if p == rq_prefix
+                    ]
+                    vanished_indices = [
+                        i for i in candidate_indices
+                        if dl2.services[i].short_name not in dl1_service_names
+                    ]
+                    service2_idx = (vanished_indices or candidate_indices)[0]
                     service2 = dl2.services[service2_idx]
 
                     # save information about changes in dictionary
